@@ -12,7 +12,7 @@ static int mkline(char* buf, size_t cap, int i) { return snprintf(buf, cap, "%0*
 int main(int argc, char** argv) {
   const char* dir;
   if (ovr_x_open(argc, argv, "c", &dir) != 0) return 2;
-  char path[PATH_MAX]; snprintf(path, sizeof(path), "%s/smoke_c.txt", dir);
+  char path[PATH_MAX]; snprintf(path, sizeof(path), "%s/smoke_c_%d.txt", dir, (int)getpid());
   char tmp[256];
   FILE* f = fopen(path, "w");
   if (!f) return 3;
